@@ -7,6 +7,7 @@ from .. import paths
 from ..core import FUNC, call_attr, calls_in, const, dotted, is_const, kwarg, norm, text, walk_local
 
 EXPLANATION = [
+    'C06.pdu-carriers: the link-layer PDU classes of bumble.ll are plain carriers: none of their methods assigns a field (no __post_init__ normalisation), so advertising and data payloads reach the peer controller as built.',
     'C06.match-arms: in the match statements of the anchored modules no class arm comes after an arm for one of its base classes (class patterns are isinstance tests in order: the later arm would never run).',
     'C06.derived-index: a controller / host / device / link table that is filled with objects taken out of another table of the same class (a lookup cache) loses its entry in every method that removes an entry from the source table.',
     'C06.shared-state: no class of the anchored modules keeps per-instance state in an object shared by all instances (an empty mutable container or synchronisation object as class-level default that is read through self and not rebound in __init__, or as a dataclass field default); process-wide registries are listed by name.',
@@ -353,7 +354,25 @@ def match_arms_rule(ctx):
     match_arm_shadowing(ctx, 'C06.match-arms', ['bumble.controller', 'bumble.link'])
 
 
+def pdu_carriers(ctx):
+    """The link-layer PDU classes carry what the controller puts in them: they do not rewrite their fields on construction
+    (the virtual controller also carries extended advertising data in AdvInd, so a spec-size cut in the carrier truncates it)."""
+    R, p = ctx.r, ctx.p
+    rule = 'C06.pdu-carriers'
+    m = p.modules.get('bumble.ll')
+    if m is None:
+        R.bad(rule, 'bumble.ll', 'anchor missing')
+        return
+    n = 0
+    for c in [x for x in ast.walk(m.tree) if isinstance(x, ast.ClassDef)]:
+        n += 1
+        writes = [x for f in c.body if isinstance(f, (ast.FunctionDef, ast.AsyncFunctionDef)) for x in ast.walk(f) if isinstance(x, ast.Attribute) and isinstance(x.ctx, ast.Store) and dotted(x.value) == 'self']
+        R.check(not writes, rule, f'bumble.ll.{c.name}', 'plain carrier: no method assigns its fields', f'{c.name} rewrites `self.{writes[0].attr if writes else ""}` after construction: what a controller sends is not what the peer controller receives (advertising data cut / altered in transit)', f'{m.rel}:{c.lineno}')
+    R.check(n >= 8, rule, 'bumble.ll | PDU classes', f'{n} classes', f'only {n} classes found')
+
+
 RULES = [
+    ('C06.pdu-carriers', pdu_carriers),
     ('C06.match-arms', match_arms_rule),
     ('C06.derived-index', derived_index_rule),
     ('C06.shared-state', shared_state_rule),
